@@ -290,11 +290,65 @@ def r3_floor_ceil_pairing(repo=None):
     floors = fn.calls(("digital_rf_get_timestamp_floor",))
     ceils = fn.calls(("digital_rf_get_sample_ceil",))
     F = "digital_rf_get_subdir_file"
-    if len(floors) != 1 or alias_path(fn, floors[0].args[0]) != "global_sample":
-        r.violation(LIB, F, "floor calls: %d" % len(floors), "the sample's timestamp is not obtained by exactly one "
-                    "digital_rf_get_timestamp_floor(global_sample, ...) call", line=fn.line)
+    ABS = {"global_sample": 1, OBJ + "->global_start_sample": 1}      # the sample counted from 1970: parameter + start of the channel
+
+    def value_at(node):
+        """linear form of the value of `node` over the function's parameters and object fields: the straight-line stores (= and +=)
+        of the function's top-level block that precede it are applied; a store under control flow to a name it reads is not decided"""
+        body = [c for c in fn.children if c.kind == "CompoundStmt"][0]
+        env = {}
+        for path, st, rhs, kind in sorted(clib.stores(fn), key=lambda x: x[1].begin):
+            if st.begin >= node.begin or path is None or "->" in path or "*" in path or "[" in path:
+                continue
+            if kind not in ("=", "+="):
+                env[path] = None
+                continue
+            top = st
+            while top.parent is not None and top.parent is not body:
+                top = top.parent
+            straight = top.parent is body and top.kind not in ("IfStmt", "ForStmt", "WhileStmt", "DoStmt", "SwitchStmt")
+            lf = clib.linform(rhs) if rhs is not None else None
+            if lf is not None:
+                sub = {}
+                for k, v in lf.items():
+                    src = env.get(k, {k: 1}) if k != 1 else {1: 1}
+                    if src is None:
+                        sub = None
+                        break
+                    for k2, v2 in src.items():
+                        sub[k2] = sub.get(k2, 0) + v * v2
+                lf = sub
+            if not straight or lf is None:
+                env[path] = None
+            elif kind == "=":
+                env[path] = lf
+            else:
+                old = env.get(path, {path: 1})
+                env[path] = None if old is None else {k: old.get(k, 0) + lf.get(k, 0) for k in set(old) | set(lf)}
+        for d in fn.find("VarDecl"):
+            if d.children and d.name not in env and d.begin < node.begin:
+                lf = clib.linform(d.children[-1])
+                if lf is not None and all(k == 1 or k not in env for k in lf):
+                    env.setdefault(d.name, lf)
+        lf = clib.linform(node)
+        if lf is None:
+            return None
+        out = {}
+        for k, v in lf.items():
+            src = env.get(k, {k: 1}) if k != 1 else {1: 1}
+            if src is None:
+                raise AnalysisError("%s: the value of `%s` at line %s depends on a store under control flow" % (F, k, node.line))
+            for k2, v2 in src.items():
+                out[k2] = out.get(k2, 0) + v * v2
+        return {k: v for k, v in out.items() if v != 0}
+    if len(floors) != 1:
+        raise AnalysisError("%s: %d calls of digital_rf_get_timestamp_floor (one confirmed on the reference tree)" % (F, len(floors)))
+    if value_at(floors[0].args[0]) != ABS:
+        r.violation(LIB, F, "floor call on `%s`" % floors[0].args[0].nsrc[:40], "the sample's timestamp is not obtained by "
+                    "digital_rf_get_timestamp_floor of (global_sample + global_start_sample): value %s" % value_at(floors[0].args[0]),
+                    line=floors[0].line)
     else:
-        r.ok("%s:%s %s" % (LIB, floors[0].line, F), "sample -> time by digital_rf_get_timestamp_floor(global_sample, n, d)")
+        r.ok("%s:%s %s" % (LIB, floors[0].line, F), "sample -> time by digital_rf_get_timestamp_floor(global_sample + global_start_sample, n, d)")
     # the basename snprintf arguments
     sn = [c for c in fn.calls(("snprintf",)) if c.args and c.args[0].path() == "basename"]
     if len(sn) != 1:
@@ -379,15 +433,20 @@ def r3_floor_ceil_pairing(repo=None):
         r.violation(LIB, F, "no ceil call on name time + file_cadence_millisecs", "the next file's first sample is not "
                     "computed by the ceil helper from this file's start plus one file cadence", line=fn.line)
     if c_this and c_next:
-        want = {"*samples_left": (c_next[1], "global_sample"), "*max_samples_this_file": (c_next[1], c_this[1])}
+        want = {"*samples_left": (c_next[1], "global_sample + global_start_sample"), "*max_samples_this_file": (c_next[1], c_this[1])}
         for path, node, rhs, kind in clib.stores(fn):
             if path in want and kind == "=":
                 e = rhs.strip(casts=True)
-                got = (e.children[0].path(), e.children[1].path()) if e.kind == "BinaryOperator" and e.opcode == "-" else None
+                got = None
+                if e.kind == "BinaryOperator" and e.opcode == "-":
+                    if path == "*samples_left":
+                        got = (e.children[0].path(), "global_sample + global_start_sample" if value_at(e.children[1]) == ABS else e.children[1].nsrc)
+                    else:
+                        got = (e.children[0].path(), e.children[1].path())
                 if got == want[path]:
-                    r.ok("%s:%s %s %s" % (LIB, node.line, F, path), "= %s - %s" % want[path])
+                    r.ok("%s:%s %s %s" % (LIB, node.line, F, path), "= %s - (%s)" % want[path])
                 else:
-                    r.violation(LIB, F, node.nsrc, "%s is not (%s - %s)" % ((path,) + want[path]), line=node.line)
+                    r.violation(LIB, F, node.nsrc, "%s is not (%s - (%s))" % ((path,) + want[path]), line=node.line)
                 want.pop(path)
         for path in want:
             r.violation(LIB, F, "%s not assigned" % path, "output not computed from the two boundary samples", line=fn.line)
@@ -598,10 +657,35 @@ def r7_truncation_siblings(repo=None):
     for v in sorted(set(in_loop) & set(after)):
         def boundary_forms(items):
             out = {}
-            for n, rhs in items:
-                lf = clib.linform(rhs)
-                if lf is None:
-                    continue
+            def alts(e, depth=0):
+                """linear forms `e` can stand for: both arms of a conditional expression; a local stored exactly once in the
+                function (and not in the loop) is replaced by the alternatives of its value"""
+                t = e.strip(casts=True)
+                if t.kind == "ConditionalOperator":
+                    return alts(t.children[1], depth) + alts(t.children[2], depth)
+                lf0 = clib.linform(t)
+                if lf0 is None:
+                    return []
+                outs = [dict(lf0)]
+                if depth < 2:
+                    for k in list(lf0):
+                        if k == 1 or k in variant:
+                            continue
+                        defs = [rhs_ for p2, n2, rhs_, k2 in clib.stores(fn) if p2 == k]
+                        if len(defs) == 1 and defs[0] is not None:
+                            sub = alts(defs[0], depth + 1)
+                            if sub:
+                                new_ = []
+                                for o in outs:
+                                    for sb in sub:
+                                        x = {kk: vv for kk, vv in o.items() if kk != k}
+                                        for kk, vv in sb.items():
+                                            x[kk] = x.get(kk, 0) + vv * o[k]
+                                        new_.append({kk: vv for kk, vv in x.items() if vv != 0})
+                                outs = new_
+                return outs
+            for n, rhs in [(n_, lf_) for n_, rhs_ in items for lf_ in alts(rhs_)]:
+                lf = rhs
                 scal = [k for k in lf if k != 1 and "[" not in k and "->" not in k and "*" not in k]
                 inv = [k for k in scal if k not in variant]
                 var_ = [k for k in scal if k in variant]
